@@ -420,7 +420,20 @@ type derivedCase struct {
 func derivedScript[E any](vals func(id, n int) []E, probe func(k int) E, c derivedCase) (setup func() []col.SetLike[E], work func(s col.SetLike[E], k int) string) {
 	S := col.Set[E](lib.Notation())
 	setup = func() []col.SetLike[E] {
-		a, b := S.MakeFromArray(vals(c.Seed, 9)), S.MakeFromArray(vals(c.Seed+1, 9))
+		var a, b col.SetLike[E]
+		if c.Elem != "part-deep" {
+			a, b = S.MakeFromArray(vals(c.Seed, 9)), S.MakeFromArray(vals(c.Seed+1, 9))
+		} else {
+			// the operands carry collators of the caller's own with a wider traversal limit: the members nest
+			// deeper than the default limit allows
+			a, b = S.MakeWithCollator(age.Collator[E]().MakeWithMaximum(40)), S.MakeWithCollator(age.Collator[E]().MakeWithMaximum(40))
+			for _, v := range vals(c.Seed, 9) {
+				a.AddValue(v)
+			}
+			for _, v := range vals(c.Seed+1, 9) {
+				b.AddValue(v)
+			}
+		}
 		return []col.SetLike[E]{a, b, S.Or(a, b), S.And(a, b), S.Sans(a, b), S.Xor(a, b)}
 	}
 	work = func(s col.SetLike[E], k int) string {
@@ -540,7 +553,18 @@ func execDerived(c derivedCase, _ core.Source) (res core.Result) {
 	if c.Elem == "int" {
 		res.Violation = runDerived(intsFor, func(k int) int { return 1000 + k }, c)
 	} else if c.Elem == "part" {
+		c.Rounds = 8 + c.Rounds/4
 		res.Violation = runDerived(partsFor, func(k int) *part { return chain(partDepth, fmt.Sprintf("probe-%04d", k)) }, c)
+	} else if c.Elem == "part-deep" {
+		c.Rounds = 4 + c.Rounds/10 // ranking parts that nest 20 deep is slow
+		deep := func(id, n int) []*part {
+			out := make([]*part, n)
+			for i := range out {
+				out[i] = chain(20, fmt.Sprintf("leaf-%02d", core.Mix(uint64(id)*131+uint64(i))%50))
+			}
+			return out
+		}
+		res.Violation = runDerived(deep, func(k int) *part { return chain(20, fmt.Sprintf("probe-%04d", k)) }, c)
 	} else if c.Elem == "rec" {
 		res.Violation = runDerived(recsFor, func(k int) rec { return rec{Tags: []int{1000, k}, N: k} }, c)
 	} else {
@@ -728,7 +752,7 @@ func TestC19(t *testing.T) {
 	defer r.End()
 	core.Stress(r, core.Check[indepCase]{Name: "independent-instances", Gen: genIndep, Exec: execIndep, HangLimit: 300 * time.Second}, r.N(150, 2000))
 	core.Stress(r, core.Check[derivedCase]{Name: "derived-instances", Gen: func(s core.Source) derivedCase {
-		return derivedCase{Elem: core.Pick(s, []string{"int", "ints", "rec", "part"}, "elem"), Seed: s.Choose(1000, "seed"), Rounds: 20 + s.Choose(60, "rounds")}
+		return derivedCase{Elem: core.Pick(s, []string{"int", "ints", "rec", "part", "part-deep"}, "elem"), Seed: s.Choose(1000, "seed"), Rounds: 20 + s.Choose(60, "rounds")}
 	}, Exec: execDerived}, r.N(40, 600))
 	core.Stress(r, core.Check[convertedCase]{Name: "converted-instances", Gen: func(s core.Source) convertedCase {
 		return convertedCase{Seed: s.Choose(1000, "seed"), Size: s.Choose(12, "size"), Rounds: 10 + s.Choose(40, "rounds")}
